@@ -584,11 +584,93 @@ func checkC04(c *Ctx) {
 		c.HarnessError("mknod: %v", err)
 		return
 	}
+	// auto-refresh caches that got no watcher (created while the process cannot open a
+	// descriptor; first thing, while nothing else here opens files): every query has to
+	// look at the directories itself. A device whose file went away since the last
+	// query is a miss for the very next request, whatever that request asks for
+	nnw := c.pick(16, 200)
+	nwDirs := make([]string, nnw)
+	nwCaches := make([]*cdi.Cache, nnw)
+	{
+		for i := range nwDirs {
+			nwDirs[i] = filepath.Join(c.Scratch, fmt.Sprintf("nowatcher_%d", i), "d")
+			must(os.MkdirAll(nwDirs[i], 0o755))
+		}
+		var old syscall.Rlimit
+		must(syscall.Getrlimit(syscall.RLIMIT_NOFILE, &old))
+		lim := old
+		lim.Cur = 0
+		must(syscall.Setrlimit(syscall.RLIMIT_NOFILE, &lim))
+		for i := range nwCaches {
+			nwCaches[i], _ = cdi.NewCache(cdi.WithSpecDirs(nwDirs[i]), cdi.WithAutoRefresh(true))
+		}
+		must(syscall.Setrlimit(syscall.RLIMIT_NOFILE, &old))
+	}
+	c.RunCases("nowatcher", nnw, 4, func(cs *Case) {
+		var i int
+		fmt.Sscanf(cs.Name, "nowatcher:%d", &i)
+		r, dir, cache := cs.R, nwDirs[i], nwCaches[i]
+		defer os.RemoveAll(filepath.Dir(dir))
+		if !watcherMissing(cache) {
+			c.Count("nowatcher_caches_that_had_a_watcher", 1)
+			return
+		}
+		mk := func(kind, dev string) []byte {
+			return []byte(fmt.Sprintf(`{"cdiVersion":"0.6.0","kind":"%s","devices":[{"name":"%s","containerEdits":{"env":["DEV_%s=1"]}}]}`, kind, dev, dev))
+		}
+		fa, fb := filepath.Join(dir, "a.json"), filepath.Join(dir, "b.yaml")
+		must(os.WriteFile(fa, mk("stale.org/dev", "a"), 0o644))
+		must(os.WriteFile(fb, mk("stale.org/dev", "b"), 0o644))
+		all := []string{"stale.org/dev=a", "stale.org/dev=b"}
+		if u, err := cache.InjectDevices(&oci.Spec{}, all...); err != nil {
+			cs.Violation("inject-failed", nil, fmt.Sprintf("InjectDevices(%v) on a watcher-less auto-refresh cache fails although both files are there: %v %v", all, u, err), nil)
+			return
+		}
+		for round := 0; round < 3; round++ {
+			// b goes away (removed, renamed to a non-Spec name, or rewritten to define something else)
+			how := pickStr(r, "removed", "renamed away", "rewritten")
+			switch how {
+			case "removed":
+				must(os.Remove(fb))
+			case "renamed away":
+				must(os.Rename(fb, fb+".bak"))
+			default:
+				must(os.WriteFile(fb, mk("stale.org/dev", "other"), 0o644))
+			}
+			req := [][]string{{"stale.org/dev=b"}, {"stale.org/dev=a", "stale.org/dev=b"}, {"stale.org/dev=b", "stale.org/dev=a", "stale.org/dev=b"}}[r.Intn(3)]
+			spec := &oci.Spec{Process: &oci.Process{Env: []string{"KEEP=1"}}}
+			unres, err := cache.InjectDevices(spec, req...)
+			c.Count("first_requests_after_a_device_went_away", 1)
+			var want []string
+			for _, q := range req {
+				if q == "stale.org/dev=b" {
+					want = append(want, q)
+				}
+			}
+			if err == nil || !reflect.DeepEqual(unres, want) || len(spec.Process.Env) != 1 {
+				cs.Violation("stale-table", map[string]string{"how": how}, fmt.Sprintf("the file defining stale.org/dev=b was %s; the next thing asked of the watcher-less auto-refresh cache is InjectDevices(%v): unresolved %v, err %v, env %v (expected a refusal naming %v and an untouched OCI spec)", how, req, unres, err, spec.Process.Env, want), nil)
+				return
+			}
+			// back again for the next round
+			os.Remove(fb + ".bak")
+			must(os.WriteFile(fb, mk("stale.org/dev", "b"), 0o644))
+			if u, err := cache.InjectDevices(&oci.Spec{}, all...); err != nil {
+				cs.Violation("inject-failed", nil, fmt.Sprintf("InjectDevices(%v) fails after the file came back: %v %v", all, u, err), nil)
+				return
+			}
+		}
+	})
 	c.RunCases("gen", c.pick(1500, 40000), 0, func(cs *Case) {
 		r := cs.R
 		p, res, cache, root := richCache(cs, hosts)
 		defer os.RemoveAll(root)
 		devs := sortedDevs(res)
+		// what earlier refused requests returned belongs to their callers: it stays as it was
+		type held struct {
+			got  []string
+			copy []string
+		}
+		var earlier []held
 		// a device that resolves but whose edits cannot be applied (its node names no type
 		// and the host path does not exist): in a request that has misses anyway it is
 		// just another resolvable name
@@ -688,6 +770,13 @@ func checkC04(c *Ctx) {
 				cs.Violation("misses", nil, fmt.Sprintf("InjectDevices(%q) reports unresolved %q, expected %q", req, unres, want), wit())
 				return
 			}
+			for _, h := range earlier {
+				if !reflect.DeepEqual(h.got, h.copy) {
+					cs.Violation("misses", map[string]string{"what": "earlier-result-modified"}, fmt.Sprintf("the list of unresolved names an earlier refused request returned (%q) reads %q after InjectDevices(%q)", h.copy, h.got, req), wit())
+					return
+				}
+			}
+			earlier = append(earlier, held{unres, append([]string{}, unres...)})
 			afterJSON, _ := json.Marshal(spec)
 			if !reflect.DeepEqual(spec, before) || string(afterJSON) != string(beforeJSON) {
 				cs.Violation("spec-modified", map[string]string{"mixed": fmt.Sprint(mixed)}, fmt.Sprintf("the OCI spec was modified by a failing InjectDevices(%q)\n before %s\n after  %s", req, beforeJSON, afterJSON), wit())
